@@ -39,7 +39,9 @@ ASSUMPTIONS = ["always_seqnum_assign = false (with the option on fix8 renumbers 
                "sequence numbers stay far below 2^32"]
 RULE = ("histories: logon, k <= 8 sends mixing application and admin messages (so that the store has holes; file, memory and "
         "no persister; initiator and acceptor; sometimes a restart on the file persister), then a ResendRequest [B,E], a new "
-        "message, sometimes a second request and another message.  thorough: ALL subsets of stored numbers x ALL ranges "
+        "message, sometimes a second request and another message; 3 of 7 requests arrive in a state other than continuous: with "
+        "their own MsgSeqNum ahead of the expected one (our ResendRequest goes first), while a TestRequest of ours is pending "
+        "(after a TICK), or while our ResendRequest is pending.  thorough: ALL subsets of stored numbers x ALL ranges "
         "(B, E in 0..k+3) for k <= 5, random beyond; quick: all of k <= 2, a sample of k = 3..5 and random ones up to k = 8, always "
         "including E = 0, E beyond the last, B beyond the last, B = 0, B > E.  non-trivial = the history contains a judged "
         "ResendRequest whose range holds at least one stored message or one gap; distinct = distinct case lines")
@@ -98,11 +100,27 @@ def history(rng, role, persist, pattern, reqs, asa=0, restart_at=None, step_ns=N
             h.send(S.spec("1", [(112, S.word(rng))]))
         else:
             h.send(S.spec("3", [(45, rng.randint(1, 9))]))
-    for (b, e) in reqs:
+    for rq in reqs:
+        b, e = rq[0], rq[1]
+        mode = rq[2] if len(rq) > 2 else "plain"
         h.clock(rng.choice([10**6, 10**9, 5 * 10**9]))
-        h.inb("2", [(7, b), (16, e)])
+        if mode == "ahead":         # the request's own number is above the expected one: our ResendRequest goes first
+            h.inb("2", [(7, b), (16, e)], seq=h.next_in + rng.randint(1, 3))
+            h.next_in += 1          # process() increments next_recv unconditionally
+        elif mode == "testreq":     # a TestRequest of ours is pending (state test_request_sent)
+            h.tick(int(h.hb * 1.2 + 2) * 10**9 + rng.randrange(1000) * 10**6)
+            h.inb("2", [(7, b), (16, e)])
+        elif mode == "sent":        # our ResendRequest is pending (state resend_request_sent), the request is in sequence
+            h.inb("0", [], seq=h.next_in + rng.randint(1, 3))
+            h.next_in += 1
+            h.inb("2", [(7, b), (16, e)])
+        else:
+            h.inb("2", [(7, b), (16, e)])
         h.send(S.spec("D", S.app_fields(rng, "D", h.now)))
     return h.line()
+
+
+MODES = ["plain", "plain", "plain", "plain", "ahead", "testreq", "sent"]
 
 
 def patterns(k):
@@ -139,7 +157,10 @@ def gen_cases(rng, tier):
         pts += rng.sample(big, 380)
     for (k, pat, b, e, per) in pts:
         role = "I" if (b + e + k) % 3 else "A"
-        cs.append(Case(history(rng, role, per, pat, [(b, e)]), "%s-k%d-%s" % ("exhaustive" if k <= kmax else "sample", k, per)))
+        # a third of the histories deliver the request in a state other than continuous / with its number ahead
+        mode = MODES[(b * 7 + e * 3 + k + len(pat.replace("h", ""))) % len(MODES)] if thorough else rng.choice(MODES)
+        cs.append(Case(history(rng, role, per, pat, [(b, e, mode)]),
+                       "%s-k%d-%s-%s" % ("exhaustive" if k <= kmax else "sample", k, per, mode)))
     # 2. random, larger k, second request
     n_rand = 1500 if thorough else 300
     for _ in range(n_rand):
@@ -148,9 +169,9 @@ def gen_cases(rng, tier):
         per = rng.choice(["file", "file", "mem", "mem", "none"])
         role = rng.choice("IA")
         last = 1 + k
-        reqs = [rng.choice(edge_ranges(rng, last))]
+        reqs = [rng.choice(edge_ranges(rng, last)) + (rng.choice(MODES),)]
         if rng.random() < 0.5:
-            reqs.append((rng.randint(0, last + 4), rng.choice([0, 0, rng.randint(0, last + 6)])))
+            reqs.append((rng.randint(0, last + 4), rng.choice([0, 0, rng.randint(0, last + 6)]), rng.choice(MODES)))
         restart_at = rng.randrange(1, k) if (per == "file" and rng.random() < 0.2 and k > 2) else None
         cs.append(Case(history(rng, role, per, pat, reqs, restart_at=restart_at), "random-%s" % per))
     # 3. always_seqnum_assign on: tied only (ranges up to the latest: no feedback through the re-stored messages)
@@ -203,11 +224,12 @@ def _parse(case_line, impl):
     start = ops[0].split()
     per = start[2] if len(start) > 2 else "mem"
     asa = "asa=1" in start
-    store, nsend, state = {}, 0, 0
+    store, nsend, nrecv, state = {}, 0, 0, 0
     reqs = []
+    states = []
     for op, st in zip(ops, steps):
         w = op.split()
-        if w and w[0] == "IN" and "," not in w[1] and state == 1:
+        if w and w[0] == "IN" and "," not in w[1] and state in (1, 6, 7, 8, 9, 10, 11, 12) and "RET " in st:
             try:
                 raw = bytes.fromhex(w[1]).decode("latin-1")
             except ValueError:
@@ -216,7 +238,12 @@ def _parse(case_line, impl):
             d = dict(f)
             if d.get("35") == "2" and raw.count("8=FIX") == 1 and "7" in d and "16" in d:
                 try:
-                    reqs.append((dict(store) if per != "none" else {}, nsend, int(d["7"]), int(d["16"])))
+                    seq = int(d.get("34", "0"))
+                    if seq == nrecv or (seq > nrecv and state == 1):
+                        # ahead: our own ResendRequest takes next_send first
+                        reqs.append((dict(store) if per != "none" else {}, nsend + (1 if seq > nrecv else 0),
+                                     int(d["7"]), int(d["16"])))
+                        states.append("ahead" if seq > nrecv else str(state))
                 except ValueError:
                     pass
         for it in st.split(";"):
@@ -224,14 +251,14 @@ def _parse(case_line, impl):
             if x[0] == "STATE":
                 state = int(x[1])
             elif x[0] == "SEQ":
-                nsend = int(x[1])
+                nsend, nrecv = int(x[1]), int(x[2])
             elif x[0] == "STORE":
                 for a, v in zip(x[1::2], x[2::2]):
                     if v == "GONE":
                         store.pop(int(a), None)
                     else:
                         store[int(a)] = v
-    return per, asa, reqs
+    return per, asa, reqs, states
 
 
 def _valid(b, e):
@@ -279,6 +306,18 @@ def nontrivial(case, impl_out):
     return False
 
 
+def extra_evidence(ctx):
+    """How many judged requests arrived in which state (1 continuous, 9 test_request_sent, 12 resend_request_sent,
+    ahead = own number above the expected one)."""
+    tally = {}
+    for c, r in zip(ctx["cases"], ctx["impl"]):
+        p = _parse(c.line, r)
+        if p and not p[1]:
+            for st in p[3]:
+                tally[st] = tally.get(st, 0) + 1
+    return {"judged_requests_by_state": tally}
+
+
 def shrink(case):
     """Drop one operation other than START / the logon / the first ResendRequest."""
     ops = case.line.split("|")
@@ -297,5 +336,5 @@ def extra_search(rng, seeds, tier):
         pat = "".join(rng.choice("aah") for _ in range(k))
         last = 1 + k
         cs.append(Case(history(rng, rng.choice("IA"), rng.choice(["file", "mem", "none"]), pat,
-                               [rng.choice(edge_ranges(rng, last))]), "extra"))
+                               [rng.choice(edge_ranges(rng, last)) + (rng.choice(MODES),)]), "extra"))
     return cs
